@@ -44,6 +44,8 @@ ASSUMPTIONS = [
     "bystander logs are compared as multisets (same-instant order of pre-run vs run-created events is C01's subject)",
     "overlapping InjectLatency windows add up: the delay demanded is base + the extra_ms of exactly the windows open at the send instant (+-(3+2n) ns for n windows); overlapping ReduceCapacity windows: only 'capacity below configured' is demanded",
     "a RandomPartition may block pairs inside its node set only while one of its own fault cycles is open (open cycles = recorded fault events minus heal events before the send): while open, only 'blocked while a NetworkPartition / loss window covers the send' is demanded for such pairs; while closed, and for every other pair, the full two-sided oracle applies",
+    "a FaultSchedule attached to a second, freshly built world acts on that world's objects; a handle cancelled during the first run is cancelled from the start of the later runs",
+    "a window with start == end at nanosecond resolution covers no instant (its nanosecond is an excluded edge)",
     "events created during the run for a crashed target are judged by the target's state at their due time, not at creation time",
     "links with an ExponentialLatency base: only 'delay >= sum of the open extras' is demanded (the base sample comes from the global RNG); links with the harness ScriptedLatency base: exact, from the recorded sample",
     "a concurrency-limited worker behind an explicit Queue -> QueueDriver pair may let requests wait: only arrivals after its last window are demanded to start by the horizon (horizon = last event + total service of the node + 60 ms)",
@@ -151,6 +153,9 @@ class V:
 def evaluate(case: dict, faults: list, obs: dict, base: dict | None, stats: dict) -> list[V]:
     wins_all, _ = windows_of(faults)
     eff = [w for w in wins_all if not w["cancelled"]]
+    if any(w["s"] == w["e"] for w in eff):
+        stats["empty_seen"] = 1
+        stats["empty_windows"] = stats.get("empty_windows", 0) + sum(1 for w in eff if w["s"] == w["e"])
     edges = all_edges(wins_all)
     out: list[V] = []
     horizon = case["horizon_ns"]
@@ -864,7 +869,7 @@ def _run(case: dict) -> Result:
         remaining = list(vs)
         for mode in cancelled_modes:
             keep = [f for f, x in zip(faults, wins) if x["cancelled"] != mode]
-            obs2 = w.execute(case, faults=keep)
+            obs2 = w.execute(case, faults=keep, reuse=False)
             if obs2["status"] != "completed":
                 continue
             base2 = base if keep else None
@@ -878,7 +883,7 @@ def _run(case: dict) -> Result:
         if left and len(cancelled_modes) > 1:
             # several cancelled faults of different kinds may cover one instant: remove them all
             keep = [f for f, x in zip(faults, wins) if not x["cancelled"]]
-            obs2 = w.execute(case, faults=keep)
+            obs2 = w.execute(case, faults=keep, reuse=False)
             if obs2["status"] == "completed":
                 ids2 = {(v.ident, v.oracle, v.shape) for v in evaluate(case, keep, obs2, base if keep else None, {})}
                 for v in left:
@@ -887,12 +892,27 @@ def _run(case: dict) -> Result:
                         v.oracle, v.component = "cancelled-fault-acted", "FaultHandle"
                         v.shape = "+".join(CANCEL_NAMES[m] for m in cancelled_modes)
 
+    # the same FaultSchedule object attached to further, freshly built worlds: every oracle again on each run.
+    # A handle that was cancelled at any point of the first run is cancelled from the start in the later ones.
+    later = obs.get("later_runs", [])
+    if later:
+        faults_later = [dict(f, cancel="pre") if f.get("cancel") else f for f in faults]
+        for k_run, obs_k in enumerate(later, start=2):
+            if obs_k["status"] != "completed":
+                continue
+            res.count("reused_schedule_runs")
+            stats["reuse_seen"] = 1
+            for v in evaluate(case, faults_later, obs_k, base, stats):
+                v.ident = ("run", k_run) + tuple(v.ident)
+                v.detail = f"[run {k_run} of {len(later) + 1}: one FaultSchedule object attached to a freshly built world with the same names] " + v.detail
+                vs.append(v)
+
     for k, n in stats.items():
         if k.endswith("_seen"):
             continue
         res.count(k, n)
-    res.nontrivial = bool(stats.get("overlap_seen") or stats.get("inflight_seen") or stats.get("cancel_seen") or stats.get("randpart_seen"))
-    for k in ("overlap_seen", "inflight_seen", "cancel_seen", "randpart_seen"):
+    res.nontrivial = bool(stats.get("overlap_seen") or stats.get("inflight_seen") or stats.get("cancel_seen") or stats.get("randpart_seen") or stats.get("reuse_seen") or stats.get("empty_seen"))
+    for k in ("overlap_seen", "inflight_seen", "cancel_seen", "randpart_seen", "reuse_seen", "empty_seen"):
         if stats.get(k):
             res.count("cases_with_" + k[:-5])
     seen = {}
@@ -915,6 +935,17 @@ def _gen_windows(rng: random.Random, n: int, lo: int, hi: int, open_ok: bool = F
     wins: list[list] = []
     for _ in range(n):
         rel = rng.choice(["random", "overlap", "nested", "contains", "adjacent-after", "adjacent-before", "identical", "same-start", "same-end"])
+        if rng.random() < 0.12:
+            # a window that is empty at nanosecond resolution (start == end, or shorter than 1 ns): alone, at an
+            # edge of / inside another window
+            if wins and rng.random() < 0.6:
+                rs, re = rng.choice(wins)
+                s = rng.choice([rs, re, rng.randrange(min(rs, re), max(rs, re) + 1)])
+            else:
+                s = rng.randrange(lo, hi - 6)
+            s = min(max(1, s), hi + 39)
+            wins.append([s, s])
+            continue
         if not wins or rel == "random":
             s = rng.randrange(lo, hi - 6)
             e = min(hi, s + rng.choice([1, 2, 5, 10, 20, 40, 80]))
@@ -926,7 +957,7 @@ def _gen_windows(rng: random.Random, n: int, lo: int, hi: int, open_ok: bool = F
                 s = rng.randrange(rs, re) if re > rs else rs
                 e = re + rng.randrange(1, 30)
                 if rng.random() < 0.5:
-                    s, e = max(lo, rs - rng.randrange(1, 30)), rng.randrange(rs + 1, re + 1)
+                    s, e = max(lo, rs - rng.randrange(1, 30)), rng.randrange(rs + 1, max(re, rs + 1) + 1)
             elif rel == "nested":
                 if ln < 3:
                     s, e = rs, re
@@ -954,6 +985,8 @@ def _gen_windows(rng: random.Random, n: int, lo: int, hi: int, open_ok: bool = F
 
 
 def _maybe_cancel(rng: random.Random, f: dict, p: float):
+    if f.get("end_ms") is not None and f["end_ms"] == f["start_ms"] and rng.random() < 0.5:
+        f["sub_ns"] = True  # end = start + 0.4 ns in float seconds: still empty at nanosecond resolution
     if rng.random() >= p:
         return
     mode = rng.choice(["pre", "pre", "post", "run", "run", "run-late"])
@@ -1310,6 +1343,12 @@ def _cap_part(rng, case, ids, T_ms, n_faults, p_cancel, scale=1.0):
     case["samples"] = sorted(samples)
 
 
+def _reuse(rng, case):
+    """In a fifth of the cases the one FaultSchedule object is attached to two or three freshly built worlds."""
+    if rng.random() < 0.2:
+        case["reuse_runs"] = rng.choice([2, 2, 3])
+
+
 def _new_case(fam):
     return {"v": 1, "family": fam, "nodes": [], "work": [], "jobs": [], "faults": [], "resources": [], "samples": []}
 
@@ -1319,6 +1358,7 @@ def gen_node(rng: random.Random, tier: str) -> dict:
     ids = _counter()
     T_ms = rng.choice([120, 200])
     _node_part(rng, case, ids, T_ms, rng.randrange(1, 7), rng.choice([0.0, 0.0, 0.15, 0.3]))
+    _reuse(rng, case)
     case["horizon_ns"] = _horizon(case, T_ms)
     return case
 
@@ -1328,6 +1368,7 @@ def gen_net(rng: random.Random, tier: str) -> dict:
     ids = _counter()
     T_ms = rng.choice([120, 200])
     _net_part(rng, case, ids, T_ms, rng.randrange(1, 7), rng.choice([0.0, 0.0, 0.15, 0.3]))
+    _reuse(rng, case)
     case["horizon_ns"] = _horizon(case, T_ms + 40)
     return case
 
@@ -1337,6 +1378,7 @@ def gen_capacity(rng: random.Random, tier: str) -> dict:
     ids = _counter()
     T_ms = rng.choice([120, 200])
     _cap_part(rng, case, ids, T_ms, rng.randrange(1, 6), rng.choice([0.0, 0.0, 0.15, 0.3]))
+    _reuse(rng, case)
     case["horizon_ns"] = _horizon(case, T_ms)
     return case
 
@@ -1350,6 +1392,7 @@ def gen_mixed(rng: random.Random, tier: str) -> dict:
     _node_part(rng, case, ids, T_ms, rng.randrange(1, 4), pc, scale=0.6, extra_targets=tuple(rng.sample(names, 1)))
     _cap_part(rng, case, ids, T_ms, rng.randrange(1, 3), pc, scale=0.6)
     rng.shuffle(case["faults"])  # creation order of the fault events is part of the schedule
+    _reuse(rng, case)
     case["horizon_ns"] = _horizon(case, T_ms + 40)
     return case
 
